@@ -100,6 +100,14 @@ func (g *GoBackNConn) clientHandshake() error {
 		resp    Message
 		respSYN *PacketSYN
 		resent  bool
+
+		// reading is true from the moment we ask the goroutine above to
+		// read the next packet until we have taken that packet off
+		// recvChan. We never ask for a second packet while one read is
+		// still outstanding: a read left behind when the handshake
+		// completes would swallow (and drop) the first packet of the
+		// data phase.
+		reading bool
 	)
 handshake:
 	for {
@@ -123,13 +131,16 @@ handshake:
 			// Wait for SYN
 			g.log.Debugf("Waiting for SYN")
 
-			select {
-			case recvNext <- 1:
-			case <-g.quit:
-				return nil
-			case <-g.ctx.Done():
-				return g.ctx.Err()
-			default:
+			if !reading {
+				select {
+				case recvNext <- 1:
+					reading = true
+				case <-g.quit:
+					return nil
+				case <-g.ctx.Done():
+					return g.ctx.Err()
+				default:
+				}
 			}
 
 			timeout := g.timeoutManager.GetHandshakeTimeout()
@@ -149,6 +160,7 @@ handshake:
 			case err := <-errChan:
 				return err
 			case b = <-recvChan:
+				reading = false
 			}
 
 			resp, err = Deserialize(b)
